@@ -453,3 +453,40 @@ func H_rename_two_reads() {
 	verifAssert(!more, "nothing else")
 	verifReach("rename-two-reads")
 }
+
+// C03 across reads: everything of one read is delivered before anything of the
+// next, whatever the size of the first read (up to a completely full buffer:
+// the spacer record stands for any amount of records whose watches are gone).
+func H_order_two_reads() {
+	verifKReset()
+	w := verifNewInotifyN(0, verifChoose("evcap", 2), 8)
+	verifSetupTable(w, 2)
+	n0, n1 := verifInt("n0"), verifInt("n1")
+	verifAssume(n0 >= 32 && n0 <= 65536 && n1 == 16)
+	if verifBool("full-buffer") {
+		verifAssume(n0 > 65536-(16+256))
+		verifReach("order-two-reads-full")
+	}
+	verifK.script[0], verifK.script[1] = verifRead{n: n0}, verifRead{n: n1}
+	verifK.nScript = 2
+	verifK.blockAfter = true
+	var r [2]verifRec
+	verifFillBuffer = func(i int, b []byte, n int) {
+		if i == 0 {
+			verifConstrainRecords(b, n, 2, 0, true)
+			r[0] = verifRecs[1]
+		} else {
+			verifConstrainRecords(b, n, 1, 0, false)
+			r[1] = verifRecs[0]
+		}
+		verifAssume(r[i].mask&verifHousekeeping == 0 && verifInotifyOps(r[i].mask) != 0 && r[i].ln == 0 && r[i].cookie == 0)
+		verifAssume(uint32(r[i].wd) == verifTable[0].wd || uint32(r[i].wd) == verifTable[1].wd)
+	}
+	go w.readEvents()
+	for i := 0; i < 2; i++ {
+		ev := <-w.Events
+		verifAssert(ev.Op == verifInotifyOps(r[i].mask) && ev.Name == verifTable[verifLookup(uint32(r[i].wd))].path, "everything of one read is delivered before anything of the next read")
+	}
+	verifAssert(w.Close() == nil, "Close")
+	verifReach("order-two-reads")
+}
